@@ -240,3 +240,245 @@ Proof.
   - vm_compute. repeat split; reflexivity.
 Qed.
 Print Assumptions C14_scan_no_miss_head_refuted.
+
+(* ================================================================================================== *)
+(* Round 6: the oracles instantiated with the models of the other blocks (Scan/ScanInst.v):
+     lex_from     := the lexer of Pos/LexCoords.v (C06/C07/C15) over a regex oracle [scan], read position-wise
+     feed_ok, end_choice, end_trial := LR/Driver.v (C02) through the token loop of Pos/TreeShift.v
+     parse_tokens := Pos/TreeShift.parse_tokens ;  parse(text[s:e]) := Pos/TreeShift.parse_slice on the window
+     search       := search_of over the matches [starts] of the search scanner
+   What remains assumed is stated about the regex oracle only:
+     scan_positive  no zero-width match              scan_bounded  matches end inside the window
+     scan_endfree   no look-ahead: cutting the text after the end of a match does not change the match
+   plus, for no_miss, the two facts that tie the search scanner to the lexer's scanner (H_nonignored_wins is
+   the exclusion of F28) and, per snippet, the decidable condition [boundaryb s e] (lexing the rest of the text
+   from s has a token boundary at e: the exclusion of F8 - it is equivalent to H_stable for that snippet). *)
+From Coq Require Import ZArith.
+From LV Require Import Cfg.Grammar Scan.ScanInst Scan.ScanInst_proofs.
+From LV Require Pos.PosBase Pos.Coord Pos.LexCoords Pos.Repr_proofs Pos.TreeShift Shape.Chain LR.Driver
+  Inter.Heap Inter.IDriver Inter.IDriver_proofs.
+
+Section C14_instantiated.
+Context {A : Type} (eqb : A -> A -> bool) (nl : A).
+Variable scan : list nat -> list A -> Z -> Z -> option (nat * nat).
+Variable ignore newline_types : nat -> bool.
+Variable T : list A.
+Variable wa wb : nat.
+Variable starts : nat -> bool.
+Variable rr : rule -> Chain.rrec.
+Variable mp : bool.
+Variable tnum : nat -> nat.
+Variable end_term : nat.
+Variable P : Driver.ptable.
+Variable fuel : nat.
+
+(* (1) the lexer model yields the chain / bounds hypothesis ... *)
+Theorem C14_lexer_chain_instantiated :
+  scan_positive scan T -> scan_bounded scan T -> forall m, chain wb m (lexI scan ignore T wb m).
+Proof. exact (lexI_chain scan ignore T wb). Qed.
+
+(* ... and [rawlex] is the lexer of Pos/LexCoords (tokens with the coordinates of the buffer, ignored ones
+   dropped), whether the window is entered with a plain TextSlice or with the exact line-counter snapshot the
+   scan loop hands over (C14_scan_positions_global) *)
+Theorem C14_lexer_model_instantiated s e snap :
+  scan_bounded scan T -> s <= e -> e <= length T ->
+  (snap = None \/ snap = Some (Coord.line_of eqb nl T s, Coord.line_start_of eqb nl T s)) ->
+  LexCoords.lex_slice eqb nl scan ignore newline_types T (Z.of_nat s) (Z.of_nat e) snap =
+  (map (retok eqb nl T) (filter nonign (fst (rawlex scan ignore T (S (e - s)) [] s e))),
+   outI eqb nl T (snd (rawlex scan ignore T (S (e - s)) [] s e))).
+Proof. intros Hb L1 L2. exact (lex_slice_rawlex eqb nl scan ignore newline_types T e Hb L2 s e snap L1 L2). Qed.
+
+(* the mid-text lexer each turn starts - with the line-counter snapshot the loop itself computed - is the lexer
+   model of Pos/LexCoords on [match_start, wb): the snapshot is the exact (line, line_start_pos) of Pos/Coord, and
+   the tokens it yields are the turn's main stream with the coordinates of the full text *)
+Theorem C14_loop_lexer_exact_instantiated :
+  scan_positive scan T -> scan_bounded scan T -> wb <= length T -> wa <= wb ->
+  forall it, In it (fst (itersI eqb nl scan ignore T wa wb starts tnum end_term P fuel)) ->
+  let m := it_m it in
+  (Z.of_nat (lc_line (it_lc it)), Z.of_nat (lc_lsp (it_lc it)))
+    = (Coord.line_of eqb nl T m, Coord.line_start_of eqb nl T m) /\
+  LexCoords.lex_slice eqb nl scan ignore newline_types T (Z.of_nat m) (Z.of_nat wb)
+    (Some (Z.of_nat (lc_line (it_lc it)), Z.of_nat (lc_lsp (it_lc it)))) =
+  (map (retok eqb nl T) (main_stream (lexI scan ignore T wb) m),
+   outI eqb nl T (snd (rawlex scan ignore T (S (wb - m)) [] m wb))).
+Proof. exact (loop_lexer_exact eqb nl scan ignore newline_types T wa wb starts tnum end_term P fuel). Qed.
+
+(* (2) the driver: feeding is prefix-closed; the '$END' guard is implied by the trial; and the loop that threads
+   ONE parser state and makes the trial on that state is the abstract stunted parse (a trial cannot disturb it) *)
+Theorem C14_feed_prefix_closed_instantiated : H_feed_prefix_closed (feed_okI eqb nl T tnum P fuel).
+Proof. exact (feed_okI_prefix_closed eqb nl T tnum P fuel). Qed.
+
+Theorem C14_stunted_incremental rest c fed longest :
+  fst (drive eqb nl T tnum P fuel fed) = Driver.Shifted c ->
+  stunted_inc eqb nl T tnum end_term P fuel c fed longest rest =
+  stunted (feed_okI eqb nl T tnum P fuel) (end_choiceI eqb nl T tnum end_term P fuel)
+          (end_trialI eqb nl T tnum end_term P fuel) fed longest rest.
+Proof. exact (stunted_incremental eqb nl T tnum end_term P fuel rest c fed longest). Qed.
+
+(* (3) H_stable, both halves, from the absence of look-ahead *)
+Theorem C14_H_stable_instantiated :
+  scan_positive scan T -> scan_bounded scan T -> scan_endfree scan T ->
+  H_stable_prefix_to_snippet (lexI scan ignore T wb) (feed_okI eqb nl T tnum P fuel)
+                             (snip_tokensI eqb nl scan ignore T tnum P fuel) /\
+  H_stable_snippet_to_prefix (lexI scan ignore T wb) (feed_okI eqb nl T tnum P fuel)
+                             (end_choiceI eqb nl T tnum end_term P fuel) (end_trialI eqb nl T tnum end_term P fuel)
+                             (snip_tokensB eqb nl scan ignore T wb tnum P fuel) /\
+  H_skip (searchI wb starts) (lexI scan ignore T wb).
+Proof.
+  intros H1 H2 H3.
+  exact (conj (stable_prefix_to_snippet eqb nl scan ignore T wb tnum P fuel H1 H2 H3)
+        (conj (stable_snippet_to_prefix eqb nl scan ignore T wb tnum end_term P fuel H1 H2 H3)
+              (skipI scan ignore T wb starts H1 H2))).
+Qed.
+
+(* (4) every match is inside the window and its value IS Lark.parse on the window [s, e) of the text - tokens and
+   meta carry the coordinates of the full text - namely the tree built from an accepted derivation *)
+Theorem C14_scan_value_eq_parse_instantiated :
+  scan_positive scan T -> scan_bounded scan T -> scan_endfree scan T -> wb <= length T -> wa <= wb ->
+  forall s e v, In (s, e, v) (scanI eqb nl scan ignore T wa wb starts rr mp tnum end_term P fuel) ->
+  wa <= s /\ s < e /\ e <= wb /\
+  parse_windowI eqb nl scan ignore newline_types T rr mp tnum end_term P fuel s e = v /\
+  exists l d, snip_tokensI eqb nl scan ignore T tnum P fuel s e = Some l /\
+              end_trialI eqb nl T tnum end_term P fuel l = true /\
+              v = match TreeShift.tree_of rr mp d with Some t => TreeShift.RTree t | None => TreeShift.RCrash end.
+Proof. exact (scan_value_eq_parse_inst eqb nl scan ignore newline_types T wa wb starts rr mp tnum end_term P fuel). Qed.
+
+(* ... which, for terminals without look-around on the window (H_ctxfree of C15), is parse(text[s:e]) on the
+   extracted substring with offsets shifted by s and line / column taken in the full text *)
+Theorem C14_scan_value_eq_parse_substring_instantiated :
+  scan_positive scan T -> scan_bounded scan T -> scan_endfree scan T -> wb <= length T -> wa <= wb ->
+  forall s e v, In (s, e, v) (scanI eqb nl scan ignore T wa wb starts rr mp tnum end_term P fuel) ->
+  (forall h (p : nat), s <= p < e ->
+     scan h T (Z.of_nat p) (Z.of_nat e) = scan h (Repr_proofs.sub T s e) (Z.of_nat (p - s)) (Z.of_nat (e - s))) ->
+  let ln := Repr_proofs.lnT eqb nl T in
+  let col := Repr_proofs.colT eqb nl T in
+  let zs := Z.of_nat s in
+  v = TreeShift.map_presult (LexCoords.shift_tok zs ln col) (TreeShift.shift_trip zs ln col)
+        (fun p => ((p + zs)%Z, ln (p + zs)%Z, col (p + zs)%Z))
+        (TreeShift.parse_slice rr mp tnum end_term P eqb nl scan ignore newline_types fuel
+           (Repr_proofs.sub T s e) 0%Z (Z.of_nat (e - s))).
+Proof.
+  exact (scan_value_eq_parse_substring_inst eqb nl scan ignore newline_types T wa wb starts rr mp tnum end_term P fuel).
+Qed.
+
+(* no longer window from the same start parses, among the windows that begin and end with a token and whose end
+   is a token boundary of lexing the rest of the text *)
+Theorem C14_scan_longest_instantiated :
+  scan_positive scan T -> scan_bounded scan T -> scan_endfree scan T -> wb <= length T -> wa <= wb ->
+  forall s e v, In (s, e, v) (scanI eqb nl scan ignore T wa wb starts rr mp tnum end_term P fuel) ->
+  forall e' l' v', e' <= wb -> boundaryb scan ignore T wb s e' = true ->
+    snip_tokensI eqb nl scan ignore T tnum P fuel s e' = Some l' -> tight s e' l' ->
+    parse_windowI eqb nl scan ignore newline_types T rr mp tnum end_term P fuel s e' = TreeShift.RTree v' ->
+    e' <= e.
+Proof. exact (scan_longest_inst eqb nl scan ignore newline_types T wa wb starts rr mp tnum end_term P fuel). Qed.
+
+(* nothing is skipped: every position that starts such a window that parses lies inside a reported match *)
+Theorem C14_scan_no_miss_instantiated :
+  scan_positive scan T -> scan_bounded scan T -> scan_endfree scan T -> wb <= length T -> wa <= wb ->
+  H_nonignored_wins scan ignore T wb starts -> H_search_covers scan ignore T wb starts ->
+  forall p e l v', wa <= p -> e <= wb -> boundaryb scan ignore T wb p e = true ->
+    snip_tokensI eqb nl scan ignore T tnum P fuel p e = Some l -> tight p e l ->
+    parse_windowI eqb nl scan ignore newline_types T rr mp tnum end_term P fuel p e = TreeShift.RTree v' ->
+  exists s' e' v, In (s', e', v) (scanI eqb nl scan ignore T wa wb starts rr mp tnum end_term P fuel)
+                  /\ s' <= p < e'.
+Proof. exact (scan_no_miss_inst eqb nl scan ignore newline_types T wa wb starts rr mp tnum end_term P fuel). Qed.
+End C14_instantiated.
+Print Assumptions C14_lexer_chain_instantiated.
+Print Assumptions C14_lexer_model_instantiated.
+Print Assumptions C14_loop_lexer_exact_instantiated.
+Print Assumptions C14_feed_prefix_closed_instantiated.
+Print Assumptions C14_stunted_incremental.
+Print Assumptions C14_H_stable_instantiated.
+Print Assumptions C14_scan_value_eq_parse_instantiated.
+Print Assumptions C14_scan_value_eq_parse_substring_instantiated.
+Print Assumptions C14_scan_longest_instantiated.
+Print Assumptions C14_scan_no_miss_instantiated.
+
+(* the same fact at the level of the heap (C13's model of ParserState / shallow copies): the state stack and the
+   outcome of a feed do not depend on the heap, the value stack or the callbacks, so a trial made with
+   callbacks = {} on a shallow copy - which, moreover, only allocates (trial_feed_pure) - cannot change what the
+   stunted parse does next *)
+Theorem C14_trial_cannot_disturb k Tb cb cb' H H' ss vs vs' ty id e :
+  (IDriver_proofs.rss (IDriver.hfeed k Tb cb H ss vs ty id e), IDriver_proofs.rkd (IDriver.hfeed k Tb cb H ss vs ty id e)) =
+  (IDriver_proofs.rss (IDriver.hfeed k Tb cb' H' ss vs' ty id e), IDriver_proofs.rkd (IDriver.hfeed k Tb cb' H' ss vs' ty id e))
+  /\ exists ext, IDriver_proofs.rH (IDriver.hfeed k Tb (fun _ => IDriver.cb_none) H ss vs ty id e) = H ++ ext.
+Proof.
+  exact (conj (eq_trans (IDriver_proofs.hfeed_ctrl Tb cb k H ss vs ty id e)
+                        (eq_sym (IDriver_proofs.hfeed_ctrl Tb cb' k H' ss vs' ty id e)))
+              (IDriver_proofs.trial_feed_pure k Tb H ss vs ty id e)).
+Qed.
+Print Assumptions C14_trial_cannot_disturb.
+
+(* ---- non-vacuity of the instantiated hypotheses: a character-level lexer (terminal = character code; 0 = space
+   and 10 = newline are ignored), grammar  start: A B  (A = 1, B = 2; table 0 -A-> 1 -B-> 2, reduce on $END = 9,
+   goto start = end state 3), buffer "a b\n?ab".  The oracle hypotheses hold for every buffer. *)
+From Coq Require Import String.
+Definition exi_scan (h : list nat) (T : list nat) (p e : Z) : option (nat * nat) :=
+  if (p <? e)%Z then
+    match nth_error T (Z.to_nat p) with
+    | Some c => if (c <=? 2) || (c =? 10) then Some (1, c) else None
+    | None => None
+    end
+  else None.
+Definition exi_ignore (ty : nat) : bool := (ty =? 0) || (ty =? 10).
+Definition exi_starts (T : list nat) (i : nat) : bool :=
+  match nth_error T i with Some c => (1 <=? c) && (c <=? 2) | None => false end.
+Definition exi_rule := mkRule 0 [Grammar.T 1; Grammar.T 2].
+Definition exi_rows : Driver.rows :=
+  [(0, [(Grammar.T 1, Driver.Shift 1); (NT 0, Driver.Shift 3)]); (1, [(Grammar.T 2, Driver.Shift 2)]);
+   (2, [(Grammar.T 9, Driver.Reduce exi_rule)])].
+Definition exi_P := Driver.ptable_of_rows exi_rows 0 3.
+Definition exi_rr (_ : rule) : Chain.rrec :=
+  Chain.mkR "start"%string [Chain.mkSym true "A"%string false; Chain.mkSym true "B"%string false] None None false false [].
+Definition exi_T : list nat := [1; 0; 2; 10; 7; 1; 2].
+Definition exi_scanI :=
+  scanI Nat.eqb 10 exi_scan exi_ignore exi_T 0 7 (exi_starts exi_T) exi_rr true (fun x => x) 9 exi_P 10.
+
+Lemma exi_scan_inv h T p e n ty : exi_scan h T (Z.of_nat p) (Z.of_nat e) = Some (n, ty) ->
+  p < e /\ n = 1 /\ nth_error T p = Some ty /\ (ty <= 2 \/ ty = 10).
+Proof.
+  unfold exi_scan. destruct (Z.ltb_spec (Z.of_nat p) (Z.of_nat e)); [|discriminate]. rewrite Nat2Z.id.
+  destruct (nth_error T p) as [c|]; [|discriminate].
+  destruct ((c <=? 2) || (c =? 10)) eqn:K; [|discriminate]. intros [= <- <-].
+  apply orb_true_iff in K. rewrite Nat.leb_le, Nat.eqb_eq in K. repeat split; auto; lia.
+Qed.
+
+Lemma exi_scan_intro h T p e c : p < e -> nth_error T p = Some c -> (c <= 2 \/ c = 10) ->
+  exi_scan h T (Z.of_nat p) (Z.of_nat e) = Some (1, c).
+Proof.
+  intros L N K. unfold exi_scan. destruct (Z.ltb_spec (Z.of_nat p) (Z.of_nat e)); [|lia]. rewrite Nat2Z.id, N.
+  assert (E : (c <=? 2) || (c =? 10) = true) by (apply orb_true_iff; rewrite Nat.leb_le, Nat.eqb_eq; exact K).
+  rewrite E. reflexivity.
+Qed.
+
+Example C14_instantiated_example :
+  (forall T, scan_positive exi_scan T /\ scan_bounded exi_scan T /\ scan_endfree exi_scan T) /\
+  (forall T wb, H_nonignored_wins exi_scan exi_ignore T wb (exi_starts T) /\
+                H_search_covers exi_scan exi_ignore T wb (exi_starts T)) /\
+  map (fun m => (fst (fst m), snd (fst m))) exi_scanI = [(0, 3); (5, 7)] /\
+  (* the second match: line 2, columns 2..4 of the full text *)
+  nth_error (map snd exi_scanI) 1 =
+    Some (TreeShift.RTree
+      (TreeShift.VTree "start"%string
+         (MetaSpan.mkMeta (Some (5, 2, 2)) (Some (7, 2, 4)) (Some (5, 2, 2)) (Some (7, 2, 4)))%Z
+         [TreeShift.VTok (LexCoords.mkTok 1 [1] 5%Z 2%Z 2%Z 2%Z 3%Z 6%Z);
+          TreeShift.VTok (LexCoords.mkTok 2 [2] 6%Z 2%Z 3%Z 2%Z 4%Z 7%Z)])) /\
+  boundaryb exi_scan exi_ignore exi_T 7 5 7 = true.
+Proof.
+  split; [|split].
+  - intros T. repeat split.
+    + intros h p e n ty E. apply exi_scan_inv in E. lia.
+    + intros h p e n ty E. apply exi_scan_inv in E. lia.
+    + intros h p e e' n ty E L1 L2. apply exi_scan_inv in E. destruct E as (_ & -> & N & K).
+      apply exi_scan_intro; auto; lia.
+  - intros T wb. split.
+    + intros m Lm S. unfold exi_starts in S. destruct (nth_error T m) as [c|] eqn:N; [|discriminate].
+      apply andb_true_iff in S. rewrite !Nat.leb_le in S. exists 1, c. split.
+      * apply exi_scan_intro; auto; lia.
+      * unfold exi_ignore. apply orb_false_iff. rewrite !Nat.eqb_neq. lia.
+    + intros s e n ty Le E Ig. apply exi_scan_inv in E. destruct E as (_ & _ & N & K).
+      unfold exi_ignore in Ig. apply orb_false_iff in Ig. rewrite !Nat.eqb_neq in Ig.
+      unfold exi_starts. rewrite N. apply andb_true_iff. rewrite !Nat.leb_le. lia.
+  - vm_compute. repeat split; reflexivity.
+Qed.
+Print Assumptions C14_instantiated_example.
